@@ -277,6 +277,10 @@ class HeapExec(DynExec):
                 return [(st, SStr(self.z_str(o['TXT'])))]
         if isinstance(v, (str, SStr)):
             return [(st, v)]
+        if v is None:
+            return [(st, 'None')]
+        if isinstance(v, SInt):
+            return [(st, fresh_str('int_as_str'))]
         raise OutsideSubset('str(%r)' % (v,))
 
     # ------------------------------------------------------------------ positions
@@ -595,8 +599,10 @@ class HeapExec(DynExec):
 
     def setattr(self, o, name, v, st):
         if isinstance(o, Rec) and o.kind == 'Token' and name in TOKEN_FIELDS:
-            self.site('store:' + name, st, obj=o, new=v)
-            st.ghost['__taint__'] = st.ghost.get('__taint__', frozenset()) | {name}
+            if '__pos__' in st.objs[o.oid]:
+                # a store to an element that came out of a list (not to an object created in this function)
+                self.site('store:' + name, st, obj=o, new=v)
+                st.ghost['__taint__'] = st.ghost.get('__taint__', frozenset()) | {name}
         return super().setattr(o, name, v, st)
 
     # ------------------------------------------------------------------ per-site obligations (C06 / C08)
@@ -631,7 +637,86 @@ class HeapExec(DynExec):
             return out
         return super().call(f, args, kw, st, node)
 
+    def with_ext(self, stmt, st):
+        """`with indent(self, n):` / `with offset(self, n):` (generator-based context managers of utils.py, executed
+        from their own source: statements before the yield, the block, the statements after the yield; as in the
+        real code nothing is undone when the block raises)"""
+        from .core import source
+        from . import models
+        cur = [st]
+        exits = []
+        for item in stmt.items:
+            ce = item.context_expr
+            if not (isinstance(ce, ast.Call) and isinstance(ce.func, ast.Name) and ce.func.id in ('indent', 'offset')
+                    and item.optional_vars is None):
+                raise OutsideSubset('with %s' % ast.unparse(ce))
+            node = source().get('sqlparse.utils.' + ce.func.id)
+            if node is None:
+                raise OutsideSubset('context manager source not found')
+            ys = [i for i, b in enumerate(node.body) if isinstance(b, ast.Expr) and isinstance(b.value, ast.Yield)]
+            if len(ys) != 1:
+                raise OutsideSubset('context manager shape')
+            before, after = node.body[:ys[0]], node.body[ys[0] + 1:]
+            nxt = []
+            for s in cur:
+                argsets = [(s, [])]
+                for a in ce.args:
+                    argsets = [(s2, acc + [v]) for s1, acc in argsets for s2, v in self.eval(a, s1)]
+                for s1, vals in argsets:
+                    env = models.bind_params(self, node, None, vals, {}, s1, lambda d: models._const_default(self, d, None))
+                    saved = s1.env
+                    s1.env = dict(env)
+                    res = self.exec_block(before, s1)
+                    for s2, oc, _v in res:
+                        if oc != Outcome.NEXT:
+                            raise OutsideSubset('context manager entry does not fall through')
+                        cm_env = s2.env
+                        s2.env = dict(saved)
+                        nxt.append((s2, cm_env, after))
+            cur_pairs = nxt
+            exits.append(None)
+            cur = [p[0] for p in cur_pairs]
+            self._cm_stack = getattr(self, '_cm_stack', []) + [cur_pairs]
+        out = []
+        pairs_stack = self._cm_stack[-len(stmt.items):]
+        self._cm_stack = self._cm_stack[:-len(stmt.items)]
+        for s in cur:
+            for s2, oc, val in self.exec_block(stmt.body, s):
+                if oc == Outcome.RAISE:
+                    out.append((s2, oc, val))
+                    continue
+                # leave the managers innermost first
+                ok = [s2]
+                for pairs in reversed(pairs_stack):
+                    after = pairs[0][2]
+                    cm_env = pairs[0][1]
+                    nxt = []
+                    for s3 in ok:
+                        saved = s3.env
+                        s3.env = dict(cm_env)
+                        for s4, oc4, _v in self.exec_block(after, s3):
+                            if oc4 != Outcome.NEXT:
+                                raise OutsideSubset('context manager exit does not fall through')
+                            s4.env = dict(saved)
+                            nxt.append(s4)
+                    ok = nxt
+                out.extend((s5, oc, val) for s5 in ok)
+        return out
+
     def call_ext(self, f, args, kw, st):
+        import re as _re
+        if f is _re.search:
+            from .models import lib
+            lib('re.search(pattern, text): None or a match object whose groups are strings (pure)')
+            s_none = st.fork()
+
+            def groups(ex_, self_, a, k, s):
+                return [(s, (fresh_str('group'),))]
+
+            def group(ex_, self_, a, k, s):
+                return [(s, fresh_str('group'))]
+            m = self.new_obj(st, 'match', {'__methods__': {'groups': groups, 'group': group}})
+            return [(s_none, None), (st, m)]
         if f is setattr:
             o, name, val = args
             if isinstance(name, Sym):
